@@ -329,6 +329,8 @@ def run(ctx: Ctx) -> None:
     rule_pivot_found(ctx)
     rule_block_conditions(ctx)
     from .c11 import rule_canonical_first
+    from .c11 import rule_emit_mirror
+    rule_emit_mirror(ctx)   # inner_product relies on inverse_circuit's gate list describing what was done to the tableau
     rule_canonical_first(ctx)
     from ..rules import bitform as _bitform
     _bitform.rule_helper_shape(ctx)
